@@ -113,7 +113,7 @@ def first_error(text):
     m = re.search(r"^error: (.*)$", text, re.M)
     msg = m.group(1).strip() if m else text.strip().splitlines()[-1][:200] if text.strip() else "no output"
     # first frame inside the repository, if any
-    fr = re.search(r"(/repo/sim/[^\s:]+:\d+)", text)
+    fr = re.search(r"(/repo/sim/[^\s:]+:\d+)", text[m.start():] if m else text)
     return msg[:200] + (f" @ {fr.group(1)}" if fr else "")
 
 
